@@ -129,7 +129,7 @@ NextBuildNormal ==
     \/ \E o \in 1..Len(heap) : CallEnabled(o)
 
 EmitHeap ==
-  (EmitOn /\ phase = "gen" /\ Complete(heap)) =>
+  (EmitOn /\ phase = "gen" /\ Complete(heap) /\ Prune) =>
     LET c == Canon(heap, Root) IN
     PrintT(ToJson([heap |-> c,
                    buildables |-> [o \in 1..Len(c) |-> IsBuildableKind(c[o].k)],
